@@ -153,6 +153,8 @@ class Scn(Std):
                     out.append(('raw', a, p0 + p1))
                     out.append(('raw', a, p2 + rc.enc_ack('PUBREL', 1) + p0))
                     out.append(('raw', a, p1 + rc.enc_ack('PUBREL', 3)))
+                    big = rc.enc_publish(IN_TOPICS['large'], PAYLOADS['large'], 1, False, False, 1)
+                    out.append(('raw', a, big + rc.enc_ack('PUBREL', 3) + p1))
         return out
 
 
